@@ -397,6 +397,11 @@ def expect(src, defs, line, keep=(), lv=True, **bind):
     depth = [0]
 
     tree = Sub().visit(ast.Expression(body=tree)).body
+    # the expected text goes through the loader's canonical spelling too (x.dot(y) / x @ y, constant on the right, ...)
+    from .normal import Canon
+
+    tree = Canon().visit(ast.Expression(body=tree)).body
+    ast.fix_missing_locations(tree)
     # every node (expected text and substituted code alike) is read at the same program point
     for n in ast.walk(tree):
         if isinstance(n, ast.expr):
@@ -408,4 +413,6 @@ def expect(src, defs, line, keep=(), lv=True, **bind):
 def canon_text(src):
     """Canonical form of a source expression given as text (no local definitions): lets expected forms be written
     as ordinary Python and normalised by the same rules as the code under analysis."""
-    return canon(ast.parse(src, mode="eval").body, _NoDefs())
+    from .normal import Canon
+
+    return canon(Canon().visit(ast.parse(src, mode="eval")).body, _NoDefs())
